@@ -1,13 +1,17 @@
 /-
-F111 — observed through the reference terminal after a `Render` (C11's observation point), `Print`
-can change the rendered content of a screen cell outside the window: a cluster wider than the
-remaining columns of the window's row is placed on the last column of the window and is displayed
-beyond the window's right edge.
+F111 (fixed in /repo) — observed through the reference terminal after a `Render` (C11's observation
+point), `Print` could change the rendered content of a screen cell outside the window: a cluster
+wider than the remaining columns of the window's row was placed on the last column of the window
+and was displayed beyond the window's right edge.
 
-4×1 screen; window `A` = columns 0..2; the cell right of it (column 3, outside `A`) holds "a" in style 1.
-`A.Print("aa世")` puts 世 (width 2) at column 2.  The *buffer* cell (3,0) is untouched — C11's
-`print_clip` holds, the clipping of the writes is right — but after `Render` the terminal shows the
-right half of 世 in column 3 instead of that "a".
+4×2 screen; window `A` = columns 0..2; the cell right of it (column 3, outside `A`) holds "a" in style 1.
+
+* Before the repair `A.Print("aa世")` put 世 (width 2) at column 2 (`printGoOld` below is the loop
+  as it was; `old_calls`).  The *buffer* cell (3,0) was untouched — C11's `print_clip` held, the
+  clipping of the writes was right — but after `Render` the terminal showed the right half of 世 in
+  column 3 instead of that "a" (`rendered_content_changed`).
+* Now `Print` tests the cluster against the rest of the row first: 世 goes to the start of the next
+  row and column 3 keeps showing "a" (`after_fix`).
 -/
 import VaxisModel.Props.C01App
 
@@ -15,24 +19,56 @@ namespace VaxisModel.Witness.F111
 open VaxisModel.Model.Window VaxisModel.Model.App VaxisModel.Spec.Display VaxisModel.Spec.Window
 open VaxisModel.Lemmas.AppSys VaxisModel.Props.C01App
 
-def scr : Win := Win.root 0 0 4 1
-def A : Win := scr.new 0 0 3 1
+def scr : Win := Win.root 0 0 4 2
+def A : Win := scr.new 0 0 3 2
 def text : List (Nat × List Raw) := [(0, [⟨5, 1, false⟩, ⟨5, 1, false⟩, ⟨6, 2, false⟩])]
 def before : List SysOp := [.draw (.setCell scr 3 0 ⟨5, 0, 1⟩), .render]
+
+/-- `Print` as it was before the repair (no fit test before `SetCell`). -/
+def printGoOld (lib : Lib) (rm : Bool) (cols rows : Int) : List Styled → Int → Int → List Op × Int × Int
+  | [], col, row => ([], col, row)
+  | (st, ch0) :: rest, col, row =>
+      if lib.hasNL ch0.g then printGoOld lib rm cols rows rest 0 (row + 1)
+      else if row > rows then ([], col, row)
+      else
+        let ch := measured lib rm ch0
+        let op : Op := { col := col, row := row, cell := { g := ch.g, w := ch.w, st := st } }
+        let col' := col + ch.w
+        let r := if col' ≥ cols then printGoOld lib rm cols rows rest 0 (row + 1)
+                 else printGoOld lib rm cols rows rest col' row
+        (op :: r.1, r.2)
+
+/-- The `SetCell` calls the old loop made for `A.Print("aa世")`, as draw ops. -/
+def oldCalls : List SysOp :=
+  [.draw (.setCell A 0 0 ⟨5, 1, 0⟩), .draw (.setCell A 1 0 ⟨5, 1, 0⟩), .draw (.setCell A 2 0 ⟨6, 2, 0⟩)]
+
+theorem old_calls :
+    (printGoOld exX.lib exX.rm A.width A.height (flatten text) 0 0).1 =
+      [⟨0, 0, ⟨5, 1, 0⟩⟩, ⟨1, 0, ⟨5, 1, 0⟩⟩, ⟨2, 0, ⟨6, 2, 0⟩⟩] := by decide
+
+def runOld : List SysOp := before ++ oldCalls ++ [.render]
 def run : List SysOp := before ++ [.draw (.print A text), .render]
 
 /-- Column 3 is outside the window's clip region … -/
-theorem outside : ¬ visible A (Screen.resize 4 1) 3 0 := by decide
+theorem outside : ¬ visible A (Screen.resize 4 2) 3 0 := by decide
 
-/-- … the buffer cell there is not changed by the `Print` (clipping of the writes holds) … -/
+/-- … the buffer cell there was not changed by the old `Print` (clipping of the writes held) … -/
 theorem buffer_unchanged :
-    (sysRun exX (Sys.init 4 1) run).v.scr.get 3 0 = (sysRun exX (Sys.init 4 1) before).v.scr.get 3 0 := by decide
+    (sysRun exX (Sys.init 4 2) runOld).v.scr.get 3 0 = (sysRun exX (Sys.init 4 2) before).v.scr.get 3 0 := by decide
 
-/-- … yet what the terminal shows in column 3 changes from the glyph set there to the right half
+/-- … yet what the terminal showed in column 3 changed from the glyph set there to the right half
     of the wide cluster, and nothing terminal-specific was involved (`bad = none`). -/
-theorem rendered_content_changes :
-    ((sysRun exX (Sys.init 4 1) before).t.grid.map (·[3]?)) = [some (.glyph "61" 1 { fg := .idx 1 } "" "")] ∧
-    ((sysRun exX (Sys.init 4 1) run).t.grid.map (·[3]?)) = [some DCell.cont] ∧
-    (sysRun exX (Sys.init 4 1) run).t.bad = none := by decide
+theorem rendered_content_changed :
+    ((sysRun exX (Sys.init 4 2) before).t.grid.map (·[3]?)) = [some (.glyph "61" 1 { fg := .idx 1 } "" ""), some DCell.blank] ∧
+    ((sysRun exX (Sys.init 4 2) runOld).t.grid.map (·[3]?)) = [some DCell.cont, some DCell.blank] ∧
+    (sysRun exX (Sys.init 4 2) runOld).t.bad = none := by decide
+
+/-- The repaired `Print`: 世 starts the next row; column 3 still shows the "a" set there. -/
+theorem after_fix :
+    (printOps exX.lib exX.rm A text).1.map (fun o => (o.col, o.row)) = [(0, 0), (1, 0), (0, 1)] ∧
+    ((sysRun exX (Sys.init 4 2) run).t.grid.map (·[3]?)) = [some (.glyph "61" 1 { fg := .idx 1 } "" ""), some DCell.blank] ∧
+    ((sysRun exX (Sys.init 4 2) run).t.grid.map (·[0]?)) =
+      [some (.glyph "61" 1 {} "" ""), some (.glyph "e4b896" 2 {} "" "")] ∧
+    (sysRun exX (Sys.init 4 2) run).t.bad = none := by decide
 
 end VaxisModel.Witness.F111
